@@ -72,13 +72,11 @@ def cut_sets(U, full=True):
     return out
 
 
-def needed_vector(D0, U, p, cuts, generic_rational=False):
+def needed_vector(D0, U, p, cuts):
     """original knot vector with each junction knot reduced to the multiplicity the curve needs there"""
     exp = list(U)
     if not D0.is_polynomial():
-        # rational curves are only built from generic data here: every knot of U is needed with its full multiplicity and a
-        # cut at a non-knot needs no knot at all, so the joined curve must come back on U itself
-        return list(U) if generic_rational else None
+        return None
     g = D0.refine(cuts)
     for k in cuts:
         if not (U[0] < k < U[-1]):
@@ -91,6 +89,13 @@ def needed_vector(D0, U, p, cuts, generic_rational=False):
         for _ in range(need - have):
             exp.append(k)
     return sorted(exp)
+
+
+def needed_rational(U, p, P, W, cuts):
+    """upper bound for the joined knot vector of a rational curve: what its homogeneous representation needs"""
+    H = rb.denote(U, [tuple(F(w) * c for c in (pt if isinstance(pt, tuple) else (pt,))) + (F(w),) for pt, w in zip(P, W)], None, p)
+    v = needed_vector(H, U, p, cuts)
+    return ("at_most", v, [k for k in cuts if U[0] < k < U[-1]])
 
 
 def check_join(res, A, B, DA, DB, where, tags, expect_knots=None, D_orig=None):
@@ -124,7 +129,16 @@ def check_join(res, A, B, DA, DB, where, tags, expect_knots=None, D_orig=None):
     o = lib.outcome(J, c)
     if o[0] != "ok" or lib.to_point(o[1]) not in (DA.value(c, "left"), DB.value(c)):
         res.violation("join_value", f"{where}: (A|B)({c}) = {o[1:]} is neither A({c}) nor B({c})", op="join", **tags)
-    if expect_knots is not None and lib.exact_kv(J.knotvector) != expect_knots:
+    if expect_knots is not None and isinstance(expect_knots, tuple):
+        # rational curve: ("at_most", vector): a junction knot may keep at most the multiplicity that the homogeneous
+        # representation (weighted points and weights) needs; fewer copies are fine when the curve is equal anyway (checked)
+        got = lib.exact_kv(J.knotvector)
+        bound = expect_knots[1]
+        if any(rb.mult(got, k) > rb.mult(bound, k) for k in set(got)) or any(rb.mult(got, k) != rb.mult(bound, k)
+                                                                            for k in set(bound) | set(got) if k not in expect_knots[2]):
+            res.violation("join_knots", f"{where}: joined knot vector {got}, expected at most {bound} at the junctions {expect_knots[2]}",
+                          op="join", **tags)
+    elif expect_knots is not None and lib.exact_kv(J.knotvector) != expect_knots:
         res.violation("join_knots", f"{where}: joined knot vector {lib.exact_kv(J.knotvector)}, expected {expect_knots}", op="join", **tags)
     return J
 
@@ -136,8 +150,11 @@ def run_case(case, res):
     U = list(U)
     n = len(U) - p - 1
     gen, gen2, gw = al.generic_points(n), al.generic_points(n, 2), al.generic_weights(n)
+    recip = [1 / w for w in gw]
     for lab, nodes in cut_sets(U, full):
         configs = [(gen, None), (gen, gw), (gen2, None)]
+        if lab in ("existing", "mid"):
+            configs.append((recip, gw))  # weighted numerator constant: only the weight function needs the knots
         if lab in ("existing", "mid", "zero", "all_knots") and (full or n <= 5):
             configs += [(e, None) for e in al.unit_vectors(n)]
             if full:
@@ -192,7 +209,7 @@ def run_case(case, res):
                     res.violation("type", f"{where}: inexact numbers in a piece", op="split", **tags)
             if len(pieces) >= 2:
                 res.nontriv((tuple(U), lab, tuple(nodes or ()), W is not None))
-            if not ok or len(pieces) < 2 or not (P is gen or full and P is gen2 and W is None):
+            if not ok or len(pieces) < 2 or not (P is gen or P is recip or full and P is gen2 and W is None):
                 continue
             if not full and W is not None and lab not in ("existing", "mid", "zero"):
                 continue  # quick: rational joins (two root searches per join in the library) for single cuts only
@@ -208,7 +225,7 @@ def run_case(case, res):
                 good = True
                 for i in range(1, len(pieces)):
                     last = i == len(pieces) - 1
-                    expect = needed_vector(D0, U, p, cuts, generic_rational=(P is gen and W is gw)) if last else None
+                    expect = (needed_vector(D0, U, p, cuts) if W is None else needed_rational(U, p, P, W, cuts)) if last else None
                     J = check_join(res, J, pieces[i], D0.restrict(cuts[0], cuts[i]), D0.restrict(cuts[i], cuts[i + 1]),
                                    f"{where} chain step {i}", jt, expect_knots=expect)
                     if J is None:
@@ -224,7 +241,7 @@ def run_case(case, res):
                     if o2[0] == "ok":
                         check_join(res, q0, q1, D0.restrict(cuts[0], cuts[1]), D0.restrict(cuts[1], cuts[2]),
                                    f"{where} with the right piece's weights rescaled by 3", dict(jt, source="split_rescaled"),
-                                   expect_knots=needed_vector(D0, U, p, cuts, generic_rational=(P is gen and W is gw)))
+                                   expect_knots=needed_rational(U, p, P, W, cuts))
     res.observe(sorted(res.outcomes.items()))
 
 
